@@ -120,3 +120,38 @@ Example C03_ecdh_example : exists kek kid, new_kek sym ex_rnd ex_epE = Ok (kek, 
 Proof. exact agree_ecdh_example. Qed.
 Example C03_sym_commutes : forall cv a b A B, ec_pub sym cv a = Ok A -> ec_pub sym cv b = Ok B -> ec_dh sym cv a B = ec_dh sym cv b A.
 Proof. exact sym_ec_commutes. Qed.
+
+(* ---- tie to the source (group "kek"): the whole bodies of _gkdi.compute_kek, compute_kek_from_public_key, compute_public_key
+   and GroupKeyEnvelope.is_public_key / get_kek / new_kek, regenerated as syntax on every run (gen/F_gkdi.v) and run in the
+   world Flow/World_gkdi_keys.v (callees inside the library := the model functions; cryptography / pow / os.urandom := the
+   Crypto record, py_pow3 and the explicit RNG `u`), ARE the model functions the theorems above are about. No loops: any fuel. ---- *)
+From V Require Import Prelude.PyAst Prelude.PyWorld gen.F_gkdi Flow.World_gkdi_keys Proofs.Flow_gkdi_keys_kek.
+Theorem C03_flow_gke_is_public_key : forall c u fuel e,
+  run (W c u) fuel k_flow_gke_is_public_key [VO (OEnv e)] = Ok (vb (gke_is_public_key e)).
+Proof. exact flow_gke_is_public_key. Qed.
+Print Assumptions C03_flow_gke_is_public_key.
+Theorem C03_flow_compute_kek : forall c u fuel h alg sp priv pub,
+  run (W c u) fuel k_flow_compute_kek [VO (OHash h); VS alg; VB sp; VB priv; VB pub]
+  = (let* b := compute_kek c h alg sp priv pub in Ok (VB b)).
+Proof. exact flow_compute_kek. Qed.
+Print Assumptions C03_flow_compute_kek.
+Theorem C03_flow_compute_kek_from_public_key : forall c u fuel h seed alg sp pub n,
+  run (W c u) fuel k_flow_compute_kek_from_public_key [VO (OHash h); VB seed; VS alg; VB sp; VB pub; VI n]
+  = (let* b := compute_kek_from_public_key c h seed alg sp pub n in Ok (VB b)).
+Proof. exact flow_compute_kek_from_public_key. Qed.
+Print Assumptions C03_flow_compute_kek_from_public_key.
+Theorem C03_flow_compute_public_key : forall c u fuel alg sp priv peer,
+  run (W c u) fuel k_flow_compute_public_key [VS alg; VB sp; VB priv; VB peer]
+  = (let* b := compute_public_key c alg sp priv peer in Ok (VB b)).
+Proof. exact flow_compute_public_key. Qed.
+Print Assumptions C03_flow_compute_public_key.
+Theorem C03_flow_gke_get_kek : forall c u fuel e kid,
+  run (W c u) fuel k_flow_gke_get_kek [VO (OEnv e); VO (OKid kid)] = (let* b := get_kek c e kid in Ok (VB b)).
+Proof. exact flow_gke_get_kek. Qed.
+Print Assumptions C03_flow_gke_get_kek.
+(* os.urandom is the model's explicit RNG argument *)
+Theorem C03_flow_gke_new_kek : forall c u fuel e,
+  run (W c u) fuel k_flow_gke_new_kek [VO (OEnv e)]
+  = (let* (kek, kid) := new_kek c u e in Ok (VT [VB kek; VO (OKid kid)])).
+Proof. exact flow_gke_new_kek. Qed.
+Print Assumptions C03_flow_gke_new_kek.
